@@ -168,6 +168,38 @@ class History(RuleBasedStateMachine):
                              'tests': sym})
         self.add({'t': 'ifndef' if neg else 'ifdef', 'name': sym})
 
+    @precondition(lambda self: not self.m.dead and self.m.active and len(self.m.stack) < 4)
+    @rule(sym=st.sampled_from(SYMS), val=st.integers(0, 3), mid=st.lists(st.integers(0, 1), min_size=1, max_size=2),
+          with_else=st.booleans())
+    def guard_chain(self, sym, val, mid, with_else):
+        """The include-guard idiom grown into a chain: the selected first branch defines the very symbol it tested, then
+        further #elif branches and an #else follow (none of them may be selected)."""
+        if sym in self.m.syms or sym in self.m.flags:
+            return
+        self.open_ifdef(sym, True)
+        self.define(sym, val, 'dec')
+        History.marker(self)
+        for truth in mid:
+            self._elif_with({'lhs': truth, 'op': None, 'rhs': None})
+            History.marker(self)
+        if with_else:
+            self.else_()
+            History.marker(self)
+        self.endif()
+        self.feats.add('define-inside-block-that-tests-it')
+
+    def _elif_with(self, c):
+        f = self.m.stack[-1]
+        if f['parent']:
+            v = eval_cond(c, self.m.syms)
+            if v and f['taken']:
+                self.feats.add('several-true-conditions-in-chain')
+            f['active'] = v and not f['taken']
+            f['taken'] = f['taken'] or v
+        else:
+            f['active'] = False
+        self.add(cond_item('elif', c))
+
     @precondition(lambda self: not self.m.dead and self.m.stack and not self.m.stack[-1]['else'])
     @rule(data=st.data())
     def elif_(self, data):
